@@ -145,8 +145,8 @@ common::register! {
     q_step = step::<_, 32, false> => 2,
     t_step_64 = step::<_, 64, false> => 2,
     q_step_sdes = step::<_, 8, true> => 2,
-    t_parse = parse::<_, 256> => 66,
-    t_step = step::<_, 256, false> => 2,
+    t_parse = parse::<_, 128> => 34,
+    t_step = step::<_, 128, false> => 2,
     t_step_sdes_12 = step::<_, 12, true> => 2,
     t_step_sdes = step::<_, 16, true> => 2,
     t_public = public::<_, 16> => 8,
